@@ -178,3 +178,34 @@ def tokens_of(tree):
             s = [('(', '(')] + s + [(')', ')')]
         out.extend(s)
     return out
+
+
+def text_tree(text):
+    """Reference reading of a concrete check string: tree or None (reject).
+
+    '' is the always-allow rule.  Leaves keep their text."""
+    from oracle import lexer
+    if text == '':
+        return ('true',)
+    toks = lexer.tokenize(text)
+    fixed = []
+    for k, v in toks:
+        fixed.append((k, v))
+    tree = parse(fixed)
+    return tree
+
+
+def text_formula(text, leaf):
+    """z3 formula of a concrete check string; ``leaf(text) -> z3 Bool``.
+    '@' / '!' / '' are handled here; an unparsable text denies."""
+    tree = text_tree(text)
+    if tree is None:
+        return z3.BoolVal(False)
+
+    def lf(t):
+        if t == '@':
+            return z3.BoolVal(True)
+        if t == '!':
+            return z3.BoolVal(False)
+        return leaf(t)
+    return formula(tree, lf)
